@@ -74,7 +74,74 @@ def trigger_class(sc, frame_len):
     return "chunked"
 
 
+def run_duo(sc):
+    """two Socket objects used by two caller threads at the same time, each on its own connection; the thread
+    scheduler decides after every raw socket call who runs next.  Each caller gets exactly its own frame."""
+    from ..kernel import Baton
+    sim = Sim(sc["seed"], budgets={"raw_io": 0, "frames": 10})
+    sim.keep_events = sc.get("_keep_events", False)
+    frames = [make_frame(sc["seed"] + 17 * i, side["body_len"]) for i, side in enumerate(sc["sides"])]
+    net = SimNet(sim, {"latency": "zero", "chunk": sc["chunks"], "send": sc["chunks"] if sc["chunks"] != "last_alone" else "random"}, [])
+    hits = Hits(sim)
+    peers = []
+    for i, side in enumerate(sc["sides"]):
+        p_ = FramePeer(frames[i] if side["mode"] == "recv" else None)
+        net.hosts[(f"10.0.0.{i + 1}", 44818)] = p_
+        peers.append(p_)
+    sim.budgets["raw_io"] = sum(len(f) for f in frames) + 16
+    results = [None] * len(frames)
+    baton = Baton(sim.stream("sched"))
+    with harness.Seams(sim, net):
+        from pycomm3.socket_ import Socket
+        socks = []
+        for i in range(len(frames)):
+            s_ = Socket(5.0)
+            s_.connect(f"10.0.0.{i + 1}", 44818)
+            socks.append(s_)
+        net.yield_hook = baton.yield_point
+
+        def job(i):
+            def f():
+                side = sc["sides"][i]
+                if side["mode"] == "recv":
+                    results[i] = harness.call(sim, socks[i].receive)
+                else:
+                    results[i] = harness.call(sim, socks[i].send, frames[i])
+            return f
+        threads = [baton.spawn(i, job(i)) for i in range(len(frames))]
+        try:
+            baton.run(list(range(len(frames))))
+        finally:
+            net.yield_hook = None
+        for t in threads:
+            t.join(timeout=5)
+    switches = sum(1 for a, b in zip(baton.schedule, baton.schedule[1:]) if a != b)
+    sim.probe("thread_switches", switches)
+    for i, side in enumerate(sc["sides"]):
+        outcome, val = results[i] if results[i] is not None else ("foreign:none", None)
+        d = side["mode"]
+        oracle = "sock.recv_result" if d == "recv" else "sock.send_result"
+        if outcome != "ok":
+            hits.hit("C12", oracle, f"caller {i}: {d} raised {val!r} with a healthy transport while another Socket object was "
+                     f"in use by another thread", outcome="library-exception" if outcome == "library" else outcome,
+                     trigger="two-callers", direction=d)
+        elif d == "recv" and bytes(val) != frames[i]:
+            other = [j for j in range(len(frames)) if j != i and bytes(val) == frames[j]]
+            hits.hit("C12", oracle, f"caller {i}: receive() returned {len(val)} bytes that are not its frame of {len(frames[i])} "
+                     f"bytes{' (it is the other caller\'s frame)' if other else ''}; schedule {baton.schedule[:40]}",
+                     outcome="wrong-bytes", trigger="two-callers", direction=d)
+        elif d == "send" and (bytes(peers[i].got) != frames[i] or val != len(frames[i])):
+            hits.hit("C12", oracle, f"caller {i}: peer received {len(peers[i].got)} of {len(frames[i])} bytes", outcome="wrong-bytes",
+                     trigger="two-callers", direction=d)
+    shape = ("duo", tuple(s_["mode"] for s_ in sc["sides"]), str(sc["chunks"]), min(switches, 3))
+    return {"hits": hits.items, "digest": sim.digest(), "shape": shape, "probes": dict(sim.probes),
+            "faults": dict(sim.faults_fired), "frames": len(frames), "calls": len(frames), "vtime_us": sim.now_us,
+            "evals": {"C12": len(frames)}, "nontrivial": True, "events": sim.events if sim.keep_events else None}
+
+
 def run(sc):
+    if sc.get("mode") == "duo":
+        return run_duo(sc)
     sim = Sim(sc["seed"], budgets={"raw_io": 0, "frames": 10})
     sim.keep_events = sc.get("_keep_events", False)
     mode = sc["mode"]
@@ -174,7 +241,7 @@ def compositions(n):
 
 
 def directed(tier):
-    out = []
+    out = directed_duo(tier)
     seed = 1
     # all compositions of the first 8 (quick) / 11 (thorough) bytes x {rest whole}
     for comp in compositions(11 if tier == "thorough" else 8):
@@ -211,8 +278,26 @@ def directed(tier):
     return out
 
 
+def directed_duo(tier):
+    out = []
+    n = 0
+    for ma, mb in (("recv", "recv"), ("recv", "send"), ("send", "send")):
+        for ba, bb in ((200, 204), (0, 300), (40, 40)):
+            for ch in (1, 7, "random"):
+                for k in range(6 if tier == "quick" else 40):
+                    n += 1
+                    out.append({"engine": "sockframe", "seed": 7000 + n, "mode": "duo",
+                                "sides": [{"mode": ma, "body_len": ba}, {"mode": mb, "body_len": bb}], "chunks": ch})
+    return out
+
+
 def gen(seed, tier):
     r = Sim(seed).stream("gen")
+    if r.random() < 0.04:
+        return {"engine": "sockframe", "seed": seed, "mode": "duo",
+                "sides": [{"mode": r.choice(("recv", "recv", "send")), "body_len": r.choice((0, 5, 40, 200, 300, 700))}
+                          for _ in range(2)],
+                "chunks": r.choice((1, 3, 7, 24, "random", 100))}
     mode = "recv" if r.random() < 0.6 else "send"
     c = r.random()
     if c < 0.3:
@@ -254,6 +339,16 @@ def gen(seed, tier):
 def shrink_candidates(sc):
     """simpler variants, most aggressive first"""
     out = []
+    if sc.get("mode") == "duo":
+        for i, side in enumerate(sc["sides"]):
+            for b in (0, 5, side["body_len"] // 2):
+                if b < side["body_len"]:
+                    c = dict(sc, sides=[dict(x) for x in sc["sides"]])
+                    c["sides"][i]["body_len"] = b
+                    out.append(c)
+        if sc["seed"] != 1:
+            out.append(dict(sc, seed=1))
+        return out
     if sc["body_len"] > 0:
         for b in (0, 1, sc["body_len"] // 2):
             if b < sc["body_len"]:
